@@ -42,6 +42,10 @@ def ensure_overrides():
                 raise MachineryError("javac failed: " + r.stderr)
 
 
+class Subst(str):
+    """constant given by a definition of the model module: `K <- Name` in the cfg (tuples / negative numbers cannot be written in a cfg)"""
+
+
 def cfg_value(v):
     if isinstance(v, bool):
         return "TRUE" if v else "FALSE"
@@ -88,7 +92,7 @@ def run_tlc(module, constants=None, invariants=(), properties=(), spec="Spec", i
         if constants:
             cfg.append("CONSTANTS")
             for k, v in constants.items():
-                cfg.append(" %s = %s" % (k, cfg_value(v)))
+                cfg.append(" %s <- %s" % (k, v) if isinstance(v, Subst) else " %s = %s" % (k, cfg_value(v)))
         for i in invariants:
             cfg.append("INVARIANT %s" % i)
         for p in properties:
@@ -106,7 +110,7 @@ def run_tlc(module, constants=None, invariants=(), properties=(), spec="Spec", i
         with open(cfgp, "w") as f:
             f.write("\n".join(cfg) + "\n")
         cp = (OVR + ":" if use_override else "") + TLA_JAR + ":" + CM_JAR
-        cmd = ["java", "-XX:+UseParallelGC", "-Xmx12g", "-cp", cp, "tlc2.TLC",
+        cmd = ["java", "-XX:+UseParallelGC", "-Xmx12g", "-Xss64m", "-cp", cp, "tlc2.TLC",
                "-workers", str(workers or NPROC), "-metadir", os.path.join(tmp, "meta%d" % (int(time.time() * 1e6) % 10 ** 9)),
                "-noGenerateSpecTE", "-config", cfgp]
         if simulate:
